@@ -869,6 +869,55 @@ func Flush(w *load.World, c *core.Collector) {
 			c.Add("FLUSH", key, core.OK, w.At(fits[0]), "", "C04", "C08")
 		}
 	}
+	// (f) the id allocator writes both its keys whenever it is flushed: the free list and the next
+	// fresh id describe one state; a flush that writes the counter and leaves an older list in the
+	// bucket (because "only fresh ids were handed out") brings ids that are in use back as free
+	if fl := findFn(w, "(*shard.IdCounter).Flush"); fl != nil {
+		st := ssax.StructOf(fl.Params[0].Type())
+		var keys []int
+		for i := 0; st != nil && i < st.NumFields(); i++ {
+			if strings.HasSuffix(st.Field(i).Name(), "Key") && st.Field(i).Type().String() == "[]byte" {
+				keys = append(keys, i)
+			}
+		}
+		if len(keys) < 2 {
+			c.Add("FLUSH", "anchor:idcounter-keys", core.Undecided, w.Position(fl.Pos()), "the key fields of IdCounter were not found", "C01", "C10")
+		}
+		for _, k := range keys {
+			var banned []ssax.Edge
+			for _, b := range fl.Blocks {
+				for _, in := range b.Instrs {
+					call, ok := in.(*ssa.Call)
+					if !ok || !call.Call.IsInvoke() || call.Call.Method.Name() != "Put" || len(call.Call.Args) < 1 {
+						continue
+					}
+					ld, ok := call.Call.Args[0].(*ssa.UnOp)
+					if !ok {
+						continue
+					}
+					if fa, ok := ld.X.(*ssa.FieldAddr); ok && ssax.StructOf(fa.X.Type()) == st && fa.Field == k {
+						for i := range b.Succs {
+							banned = append(banned, ssax.Edge{From: b, Succ: i})
+						}
+					}
+				}
+			}
+			bad := ""
+			for _, ex := range successExits(fl) {
+				if reachableWithoutEdges(fl, banned, ex.In.Block()) {
+					bad = w.At(ex.In)
+				}
+			}
+			key := "idcounter-writes:" + st.Field(k).Name()
+			if bad != "" || len(banned) == 0 {
+				c.Add("FLUSH", key, core.Violation, w.Position(fl.Pos()), "the id allocator's Flush can succeed without writing "+st.Field(k).Name()+": the bucket keeps an older value next to the new one of the other key, and node ids that are in use are handed out again", "C01", "C10")
+			} else {
+				c.Add("FLUSH", key, core.OK, w.Position(fl.Pos()), "", "C01", "C10")
+			}
+		}
+	} else {
+		c.Add("FLUSH", "anchor:idcounter", core.Undecided, "", "IdCounter.Flush not found", "C01", "C10")
+	}
 	c.Count("vector_store_fits", nFit)
 	if nFit < 2 {
 		c.Add("FLUSH", "anchor:fits", core.Undecided, "", fmt.Sprintf("found %d index functions that train their vector store, expected at least 2", nFit), "C04", "C08")
